@@ -49,12 +49,12 @@ type waitCase struct {
 }
 
 type waiter struct {
-	th     *thread
-	cases  []waitCase
-	done   bool
-	chosen int
-	val    value
-	ok     bool
+	th         *thread
+	cases      []waitCase
+	done       bool
+	chosen     int
+	val        value
+	ok         bool
 	closedSend bool
 }
 
